@@ -1,0 +1,49 @@
+package utils
+
+import (
+	"bytes"
+	"encoding/hex"
+	"fmt"
+
+	logac "berty.tech/go-ipfs-log/accesscontroller"
+	"github.com/libp2p/go-libp2p/core/crypto"
+)
+
+// VerifyEntryIdentity checks that the identity named by an entry really is its author:
+// the entry is signed with the identity's public key, that key signed the identity's id,
+// and the key designated by the id (its hex encoding is the id) endorsed the public key.
+// The identity provider's own VerifyIdentity accepts everything.
+func VerifyEntryIdentity(entry logac.LogEntry) error {
+	id := entry.GetIdentity()
+	if id == nil || id.Signatures == nil {
+		return fmt.Errorf("entry has no signed identity")
+	}
+
+	if k, ok := entry.(interface{ GetKey() []byte }); !ok || !bytes.Equal(k.GetKey(), id.PublicKey) {
+		return fmt.Errorf("entry key is not the key of its identity")
+	}
+
+	idKeyBytes, err := hex.DecodeString(id.ID)
+	if err != nil {
+		return fmt.Errorf("identity id is not a public key: %w", err)
+	}
+
+	// same message as OrbitDBIdentityProvider.SignIdentity: hex of publicKey ++ signatures.id
+	endorsed := []byte(hex.EncodeToString(append(append([]byte{}, id.PublicKey...), id.Signatures.ID...)))
+
+	for _, c := range []struct{ key, msg, sig []byte }{
+		{id.PublicKey, []byte(id.ID), id.Signatures.ID},
+		{idKeyBytes, endorsed, id.Signatures.PublicKey},
+	} {
+		pub, err := crypto.UnmarshalSecp256k1PublicKey(c.key)
+		if err != nil {
+			return fmt.Errorf("invalid identity key: %w", err)
+		}
+
+		if ok, err := pub.Verify(c.msg, c.sig); err != nil || !ok {
+			return fmt.Errorf("identity signature does not verify")
+		}
+	}
+
+	return nil
+}
